@@ -668,6 +668,17 @@ Definition C01_dups_holds (j : list attempt) (log : list (tpart * msg)) : bool :
   && retries_ok [] j
   && forallb (fun a => length (filter (fun a' => ids_eqb (a_msgs a') (a_msgs a)) j) <=? maxAttempts cfg) j.
 
+(* a batch is given up (Completion with an error the SPEC classifies as retriable) only after
+   MaxAttempts produce requests for it *)
+Definition attempts_of (j : list attempt) (m : msg) : nat :=
+  length (filter (fun a => mem_id m (a_msgs a)) j).
+Definition no_early_giveup_holds (j : list attempt) (compl : list (list msg * option err)) : bool :=
+  forallb (fun ce => match snd ce with
+                     | Some e => negb (retriable cfg e)
+                                 || forallb (fun m => maxAttempts cfg <=? attempts_of j m) (fst ce)
+                     | None => true
+                     end) compl.
+
 Definition C01_holds (cs : list call) (j : list attempt) (log : list (tpart * msg))
            (compl : list (list msg * option err)) : bool :=
   C01_nil_holds cs j log && C01_we_holds cs j && C01_compl_holds cs j compl
@@ -779,3 +790,46 @@ Definition metadata_deadline_ms (o : woptions) : option Z := None.
 Definition deadline_err : err := 1005%N.
 Definition timed_reaction (o : woptions) (delay : Z) : reaction :=
   if Z.ltb delay (produce_deadline_ms o) then AppliedAcked else AppliedLost deadline_err.
+
+(* ------------------------------------------------------------------------------------------
+   Which errors make the Writer retry: part of the SPECIFICATION (not asked of the code).
+   Error classes in the interchange encoding (err = N): Kafka partition error code c as c
+   (65536 + c for c < 0); transport classes 1001 unexpected EOF (a cut response), 1002
+   connection reset, 1003 broken pipe, 1004 connection refused, 1005 deadline exceeded
+   (time-out of the round trip), 1006 a permanent non-network error, 1007 an error whose
+   Temporary() is true, 1008 plain EOF.
+   [kafka_table_retriable]: the codes whose RETRIABLE column is True in the Kafka protocol's
+   error table (written from the table; codes up to 106, what /repo/error.go knows).
+   [kafka_go_deviation]: codes where kafka-go's Error.Temporary() on the unchanged tree differs
+   from the table — an observation reported to the coordinator, made explicit here instead of
+   being adopted silently: 9 REPLICA_NOT_AVAILABLE is retriable in the table, not in kafka-go.
+   [retriable_spec] is what the clean Writer is expected to do; op rtb compares
+   isTemporary || isTransientNetworkError of the real code with it over every class.
+   ------------------------------------------------------------------------------------------ *)
+Definition mem_N (x : N) (l : list N) : bool := existsb (N.eqb x) l.
+Definition kafka_table_retriable : list N :=
+  [2; 3; 5; 6; 7; 9; 13; 14; 15; 16; 19; 20; 41; 56; 70; 71; 72; 74; 75; 78; 80; 83; 84; 85; 86;
+   88; 89; 100; 103; 106]%N.
+Definition kafka_go_deviation : list N := [9]%N.
+Definition transport_retriable : list N := [1001; 1002; 1003; 1004; 1005; 1007]%N.
+Definition retriable_spec (e : err) : bool :=
+  (mem_N e kafka_table_retriable && negb (mem_N e kafka_go_deviation)) || mem_N e transport_retriable.
+
+(* ------------------------------------------------------------------------------------------
+   kafka.NewWriter(WriterConfig) -> Writer fields -> effective configuration.  Every field of
+   the config that the model depends on is carried over unchanged (NewWriter has no back-off
+   fields: defaults); RequiredAcks 0 means RequireAll (-1) there; a nil Balancer means
+   round-robin.  op nwc compares the mapping field by field on the real constructor.
+   ------------------------------------------------------------------------------------------ *)
+Record wconfig := mkWc {
+  wc_maxAttempts : Z; wc_batchSize : Z; wc_batchBytes : Z; wc_batchTimeoutMs : Z;
+  wc_readTimeoutMs : Z; wc_writeTimeoutMs : Z; wc_requiredAcks : Z; wc_async : bool;
+  wc_balancerNil : bool; wc_codec : Z
+}.
+Definition options_of_writer_config (c : wconfig) : woptions :=
+  mkOpt (wc_batchSize c) (wc_batchBytes c) (wc_maxAttempts c) (wc_batchTimeoutMs c) 0 0
+        (wc_readTimeoutMs c) (wc_writeTimeoutMs c).
+Definition acks_of_writer_config (c : wconfig) : Z :=
+  if Z.eqb (wc_requiredAcks c) 0 then (-1)%Z else wc_requiredAcks c.
+Definition cfg_of_writer_config (c : wconfig) (wt : option N) (retr : err -> bool) : config :=
+  cfg_of_options (options_of_writer_config c) (wc_async c) wt retr.
